@@ -147,6 +147,9 @@ func c10Check(c c10Case, rec *evid.Recorder) *Fail {
 					for k := s + 1; k < e; k++ {
 						if src[k] == '\\' {
 							k++
+							if k+1 < e && src[k] == '\r' && src[k+1] == '\n' {
+								k++ // an escaped CR LF is one line continuation
+							}
 							continue
 						}
 						if src[k] == '\n' || src[k] == '\r' {
